@@ -228,6 +228,34 @@ def rec_cond(vc, rid, name, base, tr, q, rng):
     return r
 
 
+def rec_cond_history(vc, rid, name, base0, tr, rng):
+    """conditional_cdf / conditional_icdf with an integer random_state on ONE TransformedModel object: request,
+    change the base model's parameters in place (as a re-fit does), repeat the identical request; the second
+    answer is judged against the exact conditional law of the CHANGED model."""
+    base = copy.deepcopy(base0)
+    t = tmodel(vc, base, tr)
+    r = dict(id=rid, kind="cond", exc="", name=name + " after-change", q="0.5", hooked=False, k=-1, atfloor=False, fstop=True,
+             fprev=True, tail=0, sampled=False, ks4=0, n=1, cdf4=0, ncdf=1, icdf4=0, nicdf=1)
+    try:
+        hs = float(base.distributions[0].icdf(0.5))
+        seed = int(rng.integers(1, 2**31))
+        ps = np.array([0.1, 0.5, 0.9])
+        xq = np.array([float(v) for v in np.linspace(4.0, 9.0, 3)])
+        with warnings.catch_warnings():
+            warnings.simplefilter("ignore")
+            t.conditional_cdf(xq, 1, [[hs]] * 3, random_state=seed)
+            t.conditional_icdf(ps, 1, [[hs]] * 3, random_state=seed)
+            for f in base.distributions[1].conditional_parameters.values():      # in-place change of the model
+                f.parameters = {k: float(v) * 1.25 for k, v in f.parameters.items()}
+            pc = np.asarray(t.conditional_cdf(xq, 1, [[hs]] * 3, random_state=seed), dtype=float)
+            xi = np.asarray(t.conditional_icdf(ps, 1, [[hs]] * 3, random_state=seed), dtype=float)
+        r.update(sampled=True, cdf4=clampq(np.max(np.abs(pc - exact_tz_cdf(base, xq, hs))), 1e4), ncdf=100000,
+                 icdf4=clampq(np.max(np.abs(exact_tz_cdf(base, xi, hs) - ps)), 1e4), nicdf=100000, n=100000)
+    except Exception as e:  # noqa
+        r["exc"] = f"{type(e).__name__}: {e}"[:200]
+    return r
+
+
 def rec_iform(vc, rid, name, base, tr, alpha, npoints, pf, seed):
     r = dict(id=rid, kind="iform", exc="", name=name, npoints=npoints, d0=[], d1=[], n0=1, n1=[], repro=True, seedmatters=True,
              reproaftercache=True)
@@ -337,10 +365,13 @@ def run(ctx):
     for name, base, tr in models[:ctx.pick(2, 6)]:
         for q in qs:
             add(rec_cond(vc, nid(), name, base, tr, q, rng))
+    for name, base, tr in models[:ctx.pick(1, 3)]:
+        add(rec_cond_history(vc, nid(), name, base, tr, rng))
     icases = ctx.pick([(0, 0.05, 6, 0.1)], [(0, 0.05, 8, 0.1), (1, 0.02, 8, 0.5), (2, 0.05, 6, 1.0), (3, 0.1, 10, 0.2)])
-    for mi, alpha, npoints, pf in icases:
+    for ci, (mi, alpha, npoints, pf) in enumerate(icases + [(1, 0.1, 4, 0.1)]):
         name, base, tr = models[mi % len(models)]
-        r = rec_iform(vc, nid(), name, base, tr, alpha, npoints, pf, int(rng.integers(0, 2**31)))
+        # the last case uses the integer seed 0 (a falsy but valid random_state)
+        r = rec_iform(vc, nid(), name, base, tr, alpha, npoints, pf, 0 if ci == len(icases) else int(rng.integers(0, 2**31)))
         r.update(alpha=alpha, pf=pf)
         add(r)
     failing = ctx.validate("Trace_C16", "Trace_C16.cfg", recs)
